@@ -510,6 +510,16 @@ def run(repo, rep, tier):
               "0 / 1 of the position, unchanged (column 0 is a column; "
               "got %s)" % got, construct="error-position-verbatim",
               where=L.where(ei))
+    # "the output after the element is untouched": the handler puts the
+    # translation settings back (C10 owns them); error.lineno / offset are
+    # Token.location's (C11 owns its closed form)
+    from . import c10 as _c10
+    L.borrow(repo, rep, "R13.2", "C10", _c10._settings,
+             ("handler-restores-settings",))
+    from . import c11 as _c11
+    L.borrow(repo, rep, "R13.4", "C11", _c11._location,
+             ("location-line", "location-column", "location-pair"),
+             minimum=3)
     L.state_rule(repo, rep)
 
 
